@@ -53,6 +53,9 @@ pub fn setup_opts(t: &mut Tape, mode: Mode, loaded: bool) -> TrafficRun {
             Mode::C13 => *t.pick(&[PeerKind::Answer, PeerKind::Answer, PeerKind::Silent, PeerKind::Late]),
             Mode::C15 => *t.pick(&[PeerKind::Answer, PeerKind::Answer, PeerKind::Silent, PeerKind::Late, PeerKind::ForeignSource, PeerKind::ForeignDest, PeerKind::RequestInstead, PeerKind::TokenReply]),
         };
+        // under load only conforming peers: a late reply makes the requester back off and lose the
+        // token, which is not the stable ring the GAP clause is about
+        let kind = if loaded && kind == PeerKind::Late { PeerKind::Answer } else { kind };
         let delay = match kind {
             PeerKind::Late => u64::from(cfg.slot_bits) + 20 + t.below(3 * u64::from(cfg.slot_bits)),
             _ => 11 + t.below(max_delay - 10),
@@ -448,6 +451,12 @@ pub fn gap_under_load_case(t: &mut Tape, obs: &mut Obs) -> CaseResult {
     let g = usize::from(r.cfg.gap);
     let b = r.sim.bus.0.borrow();
     let mut judged = 0u64;
+    // the clause is about the stable ring: if a token got lost after convergence (a station of a ring
+    // of several claims a token for itself) nothing is judged
+    if n > 1 && b.trace.iter().any(|q| q.sender < n && q.start_ns > c * 1000 && q.bytes.len() == 3 && q.bytes[0] == rc::SD4 && q.bytes[1] == q.bytes[2]) {
+        obs.label("token-lost-after-convergence");
+        return Ok(());
+    }
     for x in 0..n {
         let addr = r.sim.nodes[x].addr;
         let pos = ring.iter().position(|a| *a == addr).unwrap();
